@@ -280,6 +280,9 @@ class World:
                 def prioritize(self, side, path):
                     return world.prioritize(side, path)
             cls = _CS2
+        if self.opts.get("default_sleep"):
+            for p_, s_ in zip(self.provs, self.opts["default_sleep"]):
+                p_.default_sleep = s_
         self.cs = cls(self.provs, roots=roots, storage=self.storage, sleep=None, **kw)
         if "aging" in self.opts:
             self.cs.aging = self.opts["aging"]
@@ -361,9 +364,23 @@ class World:
                 world.fault(side, name, "before", idx, a)
             world._nested += 1
             try:
-                return orig(*a, **kw)
+                ret = orig(*a, **kw)
             finally:
                 world._nested -= 1
+            if name == "events" and world.opts.get("event_points"):
+                # opt-in: every further event of the batch is a fault point of its own - the provider has consumed the
+                # event (its cursor moved) but fails before handing it over (paging request fails)
+                def batch(it=ret):
+                    first = True
+                    for ev in it:
+                        if not first and world.in_engine is not None:
+                            world.api_count += 1
+                            if world.fault:
+                                world.fault(side, "events.next", "before", world.api_count, ())
+                        first = False
+                        yield ev
+                return batch()
+            return ret
         setattr(p, name, wrapper)
 
     _nested = 0
